@@ -315,13 +315,7 @@ func checkC18(c *Ctx, r *Report) {
 					return
 				}
 				n++
-				var g *ssa.Function
-				switch x := strip2(st.Val).(type) {
-				case *ssa.MakeClosure:
-					g = x.Fn.(*ssa.Function)
-				case *ssa.Function:
-					g = x
-				}
+				g := installedFunc(st.Val) // a function literal, a named function, or a method value
 				if g == nil {
 					r2.Fail(fnKey(f)+": GetConfigForClient", instrPos(in), "the installed function could not be resolved", "")
 					return
